@@ -579,8 +579,7 @@ class Signature:
             (
                 tuple(self.parameters.items()),
                 self.return_value,
-                self.impl,
-                self.callable,
+                # impl and callable are not part of __eq__ (compare=False)
                 self.is_asynq,
                 self.has_return_annotation,
                 self.allow_call,
